@@ -543,6 +543,10 @@ def run_check(mod, tier="quick", seed=1, replay=None, only_part=None, replay_inn
         per = -(-n // shards)
         for s in range(shards):
             jobs.append((mod.__name__, p.name, per, seed, s, shards, tier))
+    # optional module hook, run once in the parent before the shards are forked (they inherit
+    # what it computed)
+    if hasattr(mod, "prepare"):
+        mod.prepare([p.name for p in parts], ncpu)
     results = _run_jobs(jobs, ncpu)
 
     errors = [r for r in results if r.get("error")]
